@@ -22,7 +22,9 @@ Inductive q0 :=
 | Z0Try (a : q0) (h : option q0)
 | Z0Error | Z0Length
 | Z0Bind (src : q0) (x : bytes) (body : q0)   (* src as $x | body ; x carries the $ *)
-| Z0Var (x : bytes).
+| Z0Var (x : bytes)
+| Z0Array (q : q0)                            (* [q] *)
+| Z0Reduce (src : q0) (x : bytes) (init upd : q0).   (* reduce src as $x (init; upd) *)
 
 Definition paren (q : query) : term := Term (TQuery q) [].
 
@@ -46,6 +48,8 @@ Fixpoint emb (q : q0) : query :=
   | Z0Length => q_call (codes "length") []
   | Z0Bind src x body => Query [] [] None (Some (emb src)) (Some OpPipe) (Some (emb body)) [Pattern x [] []]
   | Z0Var x => q_call x []
+  | Z0Array q => q_term (TArray (Some (emb q)))
+  | Z0Reduce src x init upd => q_term (TReduce (emb src) (Pattern x [] []) (emb init) (emb upd))
   end.
 
 (* eager list semantics, clause by clause as coq/c01vm/Den.v *)
@@ -86,6 +90,16 @@ Definition iter_res (w : jv) : result :=
   end.
 Definition bind_env (rho : env) (x : bytes) (w : jv) : env := BVar x (plain w) :: BVar x (plain VNull) :: rho.
 
+(* reduce: the accumulator takes the LAST output of the update, or stays when the update is empty *)
+Fixpoint reduce_fold0 (upd : jv -> jv -> result) (ws : list jv) (acc : jv) : jv + exn :=
+  match ws with
+  | [] => inl acc
+  | w :: r => match upd w acc with
+              | (us, None) => reduce_fold0 upd r (last us acc)
+              | (_, Some x) => inr x
+              end
+  end.
+
 Fixpoint den0 (q : q0) (rho : env) (v : jv) : result :=
   match q with
   | Z0Id => ([v], None)
@@ -115,6 +129,18 @@ Fixpoint den0 (q : q0) (rho : env) (v : jv) : result :=
   | Z0Length => of_nres (fn_length v)
   | Z0Bind src x body => rbind (den0 src rho v) (fun w => den0 body (bind_env rho x w) v)
   | Z0Var x => match lookup_var rho x with Some w => ([fst w], None) | None => ([], Some (XSkip (codes "undefined-variable"))) end
+  | Z0Array q =>
+      match den0 q rho v with
+      | (ws, None) => ([VArr ws], None)
+      | (_, Some x) => ([], Some x)
+      end
+  | Z0Reduce src x init upd =>
+      rbind (den0 init rho v) (fun s0 =>
+        let '(ws, sx) := den0 src rho v in
+        match reduce_fold0 (fun w acc => den0 upd (BVar x (plain w) :: rho) acc) ws s0 with
+        | inr e => ([], Some e)
+        | inl acc => match sx with Some e => ([], Some e) | None => ([acc], None) end
+        end)
   end.
 
 End Den0.
@@ -183,9 +209,10 @@ Variable bs : list funcdef.
 Variable rs : bool.
 
 (* continuations keep the representation flag (every state update of Sem does) *)
-Definition K_ok (k : K) : Prop := forall w s, repsens s = rs -> repsens (snd (k (plain w) None s)) = rs.
+(* continuations keep an invariant of the state that implies the representation flag *)
+Definition K_ok (Inv : sst -> Prop) (k : K) : Prop := forall w s, Inv s -> Inv (snd (k (plain w) None s)).
 
-Lemma run_list_ok k ws e s : K_ok k -> repsens s = rs -> repsens (snd (run_list k ws e s)) = rs.
+Lemma run_list_ok Inv k ws e s : K_ok Inv k -> Inv s -> Inv (snd (run_list k ws e s)).
 Proof.
   intros Hk. revert s. induction ws as [|w r IH]; intros s Hs; cbn [run_list].
   - destruct e; exact Hs.
@@ -193,8 +220,8 @@ Proof.
     + apply IH. exact Hk. + exact Hk.
 Qed.
 
-Lemma run_list_ext k1 k2 ws e s : K_ok k1 -> repsens s = rs ->
-  (forall w s', repsens s' = rs -> k1 (plain w) None s' = k2 (plain w) None s') ->
+Lemma run_list_ext Inv k1 k2 ws e s : K_ok Inv k1 -> Inv s ->
+  (forall w s', Inv s' -> k1 (plain w) None s' = k2 (plain w) None s') ->
   run_list k1 ws e s = run_list k2 ws e s.
 Proof.
   intros Hk Hs He. revert s Hs. induction ws as [|w r IH]; intros s Hs; cbn [run_list]; [reflexivity|].
@@ -230,6 +257,8 @@ Fixpoint ok0 (q : q0) : Prop :=
   | Z0Try a h => ok0 a /\ match h with Some h => ok0 h | None => True end
   | Z0Bind src x body => is_var_name x = true /\ ok0 src /\ ok0 body
   | Z0Var x => is_var_name x = true /\ list_N_eqb x (codes "$ENV") = false
+  | Z0Array q => ok0 q
+  | Z0Reduce src x init upd => is_var_name x = true /\ ok0 src /\ ok0 init /\ ok0 upd
   | _ => True
   end.
 
@@ -240,11 +269,14 @@ Fixpoint need (q : q0) : nat :=
   | Z0If c a b => 3 + Nat.max (need c) (Nat.max (need a) (need b))
   | Z0Try a h => 3 + Nat.max (need a) (match h with Some h => need h | None => 0 end)
   | Z0Bind src x body => 3 + Nat.max (need src) (need body)
+  | Z0Array q => 3 + need q
+  | Z0Reduce src x init upd => 4 + Nat.max (need src) (Nat.max (need init) (need upd))
   | _ => 4
   end.
 
 Definition sim (q : q0) : Prop :=
-  forall (n : nat) rho v k s, (need q <= n)%nat -> vars_only rho -> K_ok k -> repsens s = rs ->
+  forall (n : nat) rho v k s (Inv : sst -> Prop), (need q <= n)%nat -> vars_only rho ->
+    (forall s0, Inv s0 -> repsens s0 = rs) -> K_ok Inv k -> Inv s ->
     eval_q bs n rho (emb q) (plain v) None k s = run_res k (den0 rs q rho v) s.
 
 Lemma run_single k w s : run_res k ([w], None) s = k (plain w) None s.
@@ -254,40 +286,40 @@ Ltac fuel2 n := do 2 (destruct n as [|n]; [cbn in *; lia|]).
 
 Lemma sim_leaves : sim Z0Id /\ sim Z0Null /\ (forall b, sim (Z0Bool b)) /\ (forall t m, sim (Z0Num t m)) /\ (forall x, sim (Z0Str x)).
 Proof.
-  repeat split; intros; intros n rho v k s Hn _ _ _; fuel2 n; cbn [den0]; rewrite run_single; try reflexivity.
+  repeat split; intros; intros n rho v k s Inv Hn _ _ _ _; fuel2 n; cbn [den0]; rewrite run_single; try reflexivity.
   - destruct b; reflexivity.
   - destruct n as [|n]; [cbn in Hn; lia|]. reflexivity.
 Qed.
 
 Lemma sim_pipe a b : sim a -> sim b -> sim (Z0Pipe a b).
 Proof.
-  intros Ha Hb n rho v k s Hn Hr Hk Hs. cbn [need] in Hn. destruct n as [|n]; [lia|].
+  intros Ha Hb n rho v k s Inv Hn Hr HI Hk Hs. cbn [need] in Hn. destruct n as [|n]; [lia|].
   cbn [emb den0]. rewrite pipe_law.
   assert (HK : K_ok (fun x ps' => eval_q bs n rho (emb b) x ps' k)).
-  { intros w s' Hs'. rewrite Hb by (try lia; assumption). apply run_list_ok; assumption. }
-  rewrite Ha by (try lia; assumption). unfold run_res at 1.
+  { intros w s' Hs'. rewrite (Hb _ _ _ _ _ Inv) by (try lia; assumption). apply (run_list_ok Inv); assumption. }
+  rewrite (Ha _ _ _ _ _ Inv) by (try lia; assumption). unfold run_res at 1.
   rewrite (run_list_ext _ (fun x _ => run_res k (den0 rs b rho (fst x)))); try assumption.
   - rewrite run_rbind. destruct (den0 rs a rho v); reflexivity.
-  - intros w s' Hs'. apply Hb; try assumption. lia.
+  - intros w s' Hs'. apply (Hb _ _ _ _ _ Inv); try assumption. lia.
 Qed.
 
 Lemma sim_comma a b : sim a -> sim b -> sim (Z0Comma a b).
 Proof.
-  intros Ha Hb n rho v k s Hn Hr Hk Hs. cbn [need] in Hn. destruct n as [|n]; [lia|].
-  cbn [emb den0]. rewrite comma_law. unfold bind. rewrite Ha by (try lia; assumption).
-  pose proof (run_list_ok k (fst (den0 rs a rho v)) (snd (den0 rs a rho v)) s Hk Hs) as Hs1.
+  intros Ha Hb n rho v k s Inv Hn Hr HI Hk Hs. cbn [need] in Hn. destruct n as [|n]; [lia|].
+  cbn [emb den0]. rewrite comma_law. unfold bind. rewrite (Ha _ _ _ _ _ Inv) by (try lia; assumption).
+  pose proof (run_list_ok Inv k (fst (den0 rs a rho v)) (snd (den0 rs a rho v)) s Hk Hs) as Hs1.
   unfold run_res in *. destruct (den0 rs a rho v) as [ws [x|]]; cbn [fst snd rseq] in *.
   - rewrite <- (run_list_exn_absorbs k ws x (ret tt)). unfold bind.
     destruct (run_list k ws (Some x) s) as [[[]|y] s1] eqn:E; [|reflexivity].
     exfalso. clear -E. revert s E. induction ws as [|w r IH]; intros s E; cbn [run_list] in E; [discriminate|].
     unfold bind in E. destruct (k (plain w) None s) as [[[]|y] s2]; [eapply IH; exact E|discriminate].
   - rewrite run_list_app. unfold bind. destruct (run_list k ws None s) as [[[]|y] s1]; [|reflexivity].
-    apply Hb; try assumption. lia.
+    apply (Hb _ _ _ _ _ Inv); try assumption. lia.
 Qed.
 
 Lemma sim_empty : sim Z0Empty.
 Proof.
-  intros n rho v k s Hn Hr _ _. cbn [need] in Hn. do 3 (destruct n as [|n]; [lia|]).
+  intros n rho v k s Inv Hn Hr HI _ _. cbn [need] in Hn. do 3 (destruct n as [|n]; [lia|]).
   cbn [emb den0]. unfold eval_q, q_call, q_term.
   cbn [evals_n step ev_q step_eval_q push_defs fold_left ev_t step_eval_t rev app ev_call].
   unfold step_call. cbn [List.length].
@@ -297,7 +329,7 @@ Qed.
 
 Lemma sim_error : sim Z0Error.
 Proof.
-  intros n rho v k s Hn Hr _ _. cbn [need] in Hn. do 3 (destruct n as [|n]; [lia|]).
+  intros n rho v k s Inv Hn Hr HI _ _. cbn [need] in Hn. do 3 (destruct n as [|n]; [lia|]).
   cbn [emb den0]. unfold eval_q, q_call, q_term.
   cbn [evals_n step ev_q step_eval_q push_defs fold_left ev_t step_eval_t rev app ev_call].
   unfold step_call. cbn [List.length].
@@ -307,7 +339,7 @@ Qed.
 
 Lemma sim_length : sim Z0Length.
 Proof.
-  intros n rho v k s Hn Hr _ Hs. cbn [need] in Hn. do 3 (destruct n as [|n]; [lia|]).
+  intros n rho v k s Inv Hn Hr HI _ Hs. cbn [need] in Hn. do 3 (destruct n as [|n]; [lia|]).
   cbn [emb den0]. unfold eval_q, q_call, q_term.
   cbn [evals_n step ev_q step_eval_q push_defs fold_left ev_t step_eval_t rev app ev_call].
   unfold step_call. cbn [List.length].
@@ -318,13 +350,13 @@ Proof.
   unfold guard_repsens. replace (is_formatter (codes "length")) with false by reflexivity.
   destruct (fn_length v) as [w|c val|why]; cbn [lift of_nres].
   - rewrite run_single. reflexivity.
-  - unfold raise_err, run_res, mask. cbn [run_list fst snd]. rewrite Hs. reflexivity.
+  - unfold raise_err, run_res, mask. cbn [run_list fst snd]. rewrite (HI _ Hs). reflexivity.
   - reflexivity.
 Qed.
 
 Lemma sim_var x : ok0 (Z0Var x) -> sim (Z0Var x).
 Proof.
-  intros [Hx Henv] n rho v k s Hn Hr _ _. cbn [need] in Hn. do 3 (destruct n as [|n]; [lia|]).
+  intros [Hx Henv] n rho v k s Inv Hn Hr HI _ _. cbn [need] in Hn. do 3 (destruct n as [|n]; [lia|]).
   cbn [emb den0]. unfold eval_q, q_call, q_term.
   cbn [evals_n step ev_q step_eval_q push_defs fold_left ev_t step_eval_t rev app ev_call].
   unfold step_call. cbn [List.length]. rewrite Hx. cbn [andb Nat.eqb].
@@ -360,15 +392,15 @@ Ltac fold_eval :=
 
 Lemma sim_iter t : sim t -> sim (Z0Iter t).
 Proof.
-  intros Ht n rho v k s Hn Hr Hk Hs. cbn [need] in Hn. do 4 (destruct n as [|n]; [lia|]).
+  intros Ht n rho v k s Inv Hn Hr HI Hk Hs. cbn [need] in Hn. do 4 (destruct n as [|n]; [lia|]).
   cbn [emb den0]. unfold eval_q. cbn [evals_n step ev_q step_eval_q push_defs fold_left ev_t step_eval_t rev app].
   fold_eval.
   assert (HK : K_ok (fun x ps' => iterate x ps' k)).
-  { intros w s' Hs'. rewrite iterate_run by assumption. apply run_list_ok; assumption. }
-  rewrite Ht by (try lia; assumption). unfold run_res at 1.
+  { intros w s' Hs'. rewrite iterate_run by (apply HI; assumption). apply (run_list_ok Inv); assumption. }
+  rewrite (Ht _ _ _ _ _ Inv) by (try lia; assumption). unfold run_res at 1.
   rewrite (run_list_ext _ (fun x _ => run_res k (iter_res rs (fst x)))); try assumption.
   - rewrite run_rbind. destruct (den0 rs t rho v); reflexivity.
-  - intros w s' Hs'. apply iterate_run. exact Hs'.
+  - intros w s' Hs'. apply iterate_run. apply HI. exact Hs'.
 Qed.
 
 Lemma index_run k w key s : repsens s = rs ->
@@ -382,34 +414,34 @@ Qed.
 
 Lemma sim_field t c key : sim t -> sim (Z0Field t c key).
 Proof.
-  intros Ht n rho v k s Hn Hr Hk Hs. cbn [need] in Hn. do 4 (destruct n as [|n]; [lia|]).
+  intros Ht n rho v k s Inv Hn Hr HI Hk Hs. cbn [need] in Hn. do 4 (destruct n as [|n]; [lia|]).
   cbn [emb den0]. unfold eval_q. cbn [evals_n step ev_q step_eval_q push_defs fold_left ev_t step_eval_t rev app ev_index].
   unfold step_eval_index. cbn [index_key ev_t step step_eval_t rev app].
   fold_eval.
   assert (HK : K_ok (fun x ps' => lift (fn_index2 (fst x) (VStr (c :: key))) (fun w => nav ps' x (VStr (c :: key)) w k))).
-  { intros w s' Hs'. cbn [fst plain]. rewrite index_run by assumption. apply run_list_ok; assumption. }
-  rewrite Ht by (try lia; assumption). unfold run_res at 1.
+  { intros w s' Hs'. cbn [fst plain]. rewrite index_run by (apply HI; assumption). apply (run_list_ok Inv); assumption. }
+  rewrite (Ht _ _ _ _ _ Inv) by (try lia; assumption). unfold run_res at 1.
   rewrite (run_list_ext _ (fun x _ => run_res k (of_nres rs (fn_index2 (fst x) (VStr (c :: key)))))); try assumption.
   - rewrite (run_rbind k (fun w => of_nres rs (fn_index2 w (VStr (c :: key))))). destruct (den0 rs t rho v); reflexivity.
-  - intros w s' Hs'. apply index_run. exact Hs'.
+  - intros w s' Hs'. apply index_run. apply HI. exact Hs'.
 Qed.
 
 Lemma sim_if c a b : sim c -> sim a -> sim b -> sim (Z0If c a b).
 Proof.
-  intros Hc Ha Hb n rho v k s Hn Hr Hk Hs. cbn [need] in Hn. do 3 (destruct n as [|n]; [lia|]).
+  intros Hc Ha Hb n rho v k s Inv Hn Hr HI Hk Hs. cbn [need] in Hn. do 3 (destruct n as [|n]; [lia|]).
   cbn [emb den0]. unfold eval_q, q_term. cbn [evals_n step ev_q step_eval_q push_defs fold_left ev_t step_eval_t rev app if_chain].
   fold_eval.
   set (K' := fun (x : tv) (_ : pst) => if truthy (fst x) then eval_q bs (S n) rho (emb a) (plain v) None k
                                        else eval_q bs (S n) rho (emb b) (plain v) None k).
   assert (HK : K_ok K').
   { intros w s' Hs'. unfold K'. cbn [fst plain]. destruct (truthy w).
-    - rewrite Ha by (try lia; assumption). apply run_list_ok; assumption.
-    - rewrite Hb by (try lia; assumption). apply run_list_ok; assumption. }
+    - rewrite (Ha _ _ _ _ _ Inv) by (try lia; assumption). apply (run_list_ok Inv); assumption.
+    - rewrite (Hb _ _ _ _ _ Inv) by (try lia; assumption). apply (run_list_ok Inv); assumption. }
   change (eval_q bs (S n) rho (emb c) (plain v) None K' s = run_res k (rbind (den0 rs c rho v) (fun w => if truthy w then den0 rs a rho v else den0 rs b rho v)) s).
-  rewrite Hc by (try lia; assumption). unfold run_res at 1.
+  rewrite (Hc _ _ _ _ _ Inv) by (try lia; assumption). unfold run_res at 1.
   rewrite (run_list_ext _ (fun x _ => run_res k ((fun w => if truthy w then den0 rs a rho v else den0 rs b rho v) (fst x)))); try assumption.
   - rewrite (run_rbind k (fun w => if truthy w then den0 rs a rho v else den0 rs b rho v)). destruct (den0 rs c rho v); reflexivity.
-  - intros w s' Hs'. unfold K'. cbn [fst plain]. destruct (truthy w); [apply Ha|apply Hb]; try assumption; lia.
+  - intros w s' Hs'. unfold K'. cbn [fst plain]. destruct (truthy w); [apply (Ha _ _ _ _ _ Inv)|apply (Hb _ _ _ _ _ Inv)]; try assumption; lia.
 Qed.
 
 (* errors in results of den0 are raised at depth 0 *)
@@ -424,6 +456,14 @@ Proof.
   assert (H : depth0 (rbind_list (fst r) f) ).
   { induction (fst r) as [|w l IH]; [intros d c val E; discriminate|]. cbn. apply depth0_rseq; [apply Hf|exact IH]. }
   destruct (rbind_list (fst r) f) as [os [x|]]; [exact H|]. exact Hr.
+Qed.
+
+Lemma reduce_fold0_depth0 upd : (forall w acc, depth0 (upd w acc)) ->
+  forall ws acc d c val, reduce_fold0 upd ws acc = inr (XErr d c val) -> d = O.
+Proof.
+  intros Hu. induction ws as [|w r IH]; intros acc d c val E; cbn [reduce_fold0] in E; [discriminate|].
+  specialize (Hu w acc). destruct (upd w acc) as [us [x|]]; [|eapply IH; exact E].
+  injection E as ->. eapply Hu. reflexivity.
 Qed.
 
 Ltac triv0 := let E := fresh "E" in intros ? ? ? E; cbn in E; congruence.
@@ -444,17 +484,25 @@ Proof.
   - destruct (fn_length v); triv0.
   - apply depth0_rbind; [apply den0_depth0|intros w; apply den0_depth0].
   - destruct (lookup_var rho x); triv0.
+  - pose proof (den0_depth0 q rho v) as IH. destruct (den0 rs q rho v) as [ws [x|]]; [|triv0].
+    intros d c val E. cbn in E. eapply IH. exact E.
+  - apply depth0_rbind; [apply den0_depth0|intros s0].
+    pose proof (den0_depth0 q1 rho v) as IHs. destruct (den0 rs q1 rho v) as [ws sx].
+    destruct (reduce_fold0 _ ws s0) as [acc|e] eqn:ER.
+    + destruct sx as [e|]; [|triv0]. intros d c val E. cbn in E. eapply IHs. exact E.
+    + intros d c val E. cbn in E. injection E as ->.
+      eapply reduce_fold0_depth0; [|exact ER]. intros w acc. apply den0_depth0.
 Qed.
 
 Lemma sim_try a h : sim a -> match h with Some h => sim h | None => True end -> sim (Z0Try a h).
 Proof.
-  intros Ha Hh n rho v k s Hn Hr Hk Hs. cbn [need] in Hn. do 3 (destruct n as [|n]; [lia|]).
+  intros Ha Hh n rho v k s Inv Hn Hr HI Hk Hs. cbn [need] in Hn. do 3 (destruct n as [|n]; [lia|]).
   cbn [emb]. unfold eval_q, q_term. cbn [evals_n step ev_q step_eval_q push_defs fold_left ev_t step_eval_t rev app].
   fold_eval.
   assert (HK : K_ok (fun y ps' => down (k y ps'))).
   { intros w s' Hs'. unfold down. specialize (Hk w s' Hs'). destruct (k (plain w) None s') as [[[]|[]] s1]; exact Hk. }
   unfold try_catch at 1.
-  rewrite Ha by (try lia; assumption).
+  rewrite (Ha _ _ _ _ _ Inv) by (try lia; assumption).
   change (try_catch (run_res (fun y ps' => down (k y ps')) (den0 rs a rho v))
             (fun val => match option_map emb h with
                         | None => ret tt
@@ -465,14 +513,14 @@ Proof.
                         end) s = run_res k (den0 rs (Z0Try a h) rho v) s).
   unfold run_res at 1. rewrite run_try. cbn [den0].
   pose proof (den0_depth0 a rho v) as Hd.
-  pose proof (run_list_ok k (fst (den0 rs a rho v)) None s Hk Hs) as Hs1.
+  pose proof (run_list_ok Inv k (fst (den0 rs a rho v)) None s Hk Hs) as Hs1.
   destruct (den0 rs a rho v) as [ws [[d c val| | | | |]|]]; cbn [fst snd] in *;
     try (unfold run_res; cbn [fst snd]; rewrite run_list_raise; reflexivity).
   - assert (d = O) by (eapply Hd; reflexivity). subst d.
     destruct h as [hq|]; cbn [option_map].
     + destruct val as [e|].
       * unfold run_res. cbn [rseq fst snd]. rewrite run_list_app. unfold bind.
-        destruct (run_list k ws None s) as [[[]|y] s1]; [|reflexivity]. apply Hh; try assumption. lia.
+        destruct (run_list k ws None s) as [[[]|y] s1]; [|reflexivity]. apply (Hh _ _ _ _ _ Inv); try assumption. lia.
       * unfold run_res. cbn [fst snd]. rewrite run_list_raise. reflexivity.
     + unfold run_res. cbn [fst snd]. unfold bind, ret. destruct (run_list k ws None s) as [[[]|y] s1]; reflexivity.
   - unfold run_res. cbn [fst snd]. unfold bind, ret. destruct (run_list k ws None s) as [[[]|y] s1]; reflexivity.
@@ -483,7 +531,7 @@ Proof. eexists. vm_compute. reflexivity. Qed.
 
 Lemma sim_bind src x body : is_var_name x = true -> sim src -> sim body -> sim (Z0Bind src x body).
 Proof.
-  intros Hx Hsrc Hbody n rho v k s Hn Hr Hk Hs. cbn [need] in Hn. do 3 (destruct n as [|n]; [lia|]).
+  intros Hx Hsrc Hbody n rho v k s Inv Hn Hr HI Hk Hs. cbn [need] in Hn. do 3 (destruct n as [|n]; [lia|]).
   cbn [emb den0]. unfold eval_q. cbn [evals_n step ev_q step_eval_q push_defs fold_left].
   destruct syn_depth_S as [d Hd]. rewrite Hd.
   destruct x as [|c x]; [discriminate Hx|].
@@ -493,13 +541,13 @@ Proof.
                eval_q bs (S (S n)) (BVar (c :: x) x0 :: BVar (c :: x) (plain VNull) :: rho) (emb body) (plain v) None k).
   assert (HR : forall w, vars_only (bind_env rho (c :: x) w)) by (intros w; exact Hr).
   assert (HK : K_ok K').
-  { intros w s' Hs'. unfold K'. rewrite Hbody by (try lia; try apply HR; assumption). apply run_list_ok; assumption. }
+  { intros w s' Hs'. unfold K'. rewrite (Hbody _ _ _ _ _ Inv) by (try lia; try apply HR; assumption). apply (run_list_ok Inv); assumption. }
   change (eval_q bs (S (S n)) rho (emb src) (plain v) None K' s =
           run_res k (rbind (den0 rs src rho v) (fun w => den0 rs body (bind_env rho (c :: x) w) v)) s).
-  rewrite Hsrc by (try lia; assumption). unfold run_res at 1.
+  rewrite (Hsrc _ _ _ _ _ Inv) by (try lia; assumption). unfold run_res at 1.
   rewrite (run_list_ext _ (fun x0 _ => run_res k ((fun w => den0 rs body (bind_env rho (c :: x) w) v) (fst x0)))); try assumption.
   - rewrite (run_rbind k (fun w => den0 rs body (bind_env rho (c :: x) w) v)). destruct (den0 rs src rho v); reflexivity.
-  - intros w s' Hs'. unfold K'. apply Hbody; [lia|apply HR|assumption|assumption].
+  - intros w s' Hs'. unfold K'. apply (Hbody _ _ _ _ _ Inv); [lia|apply HR|assumption|assumption|assumption].
 Qed.
 
 (* the reference semantics agrees with the eager list semantics on the state-free fragment *)
@@ -545,7 +593,7 @@ Proof.
     exists s'. split; [exact E1|]. rewrite E2. cbn [outs rev]. rewrite <- app_assoc. reflexivity.
 Qed.
 
-Lemma emit_ok : K_ok emit.
+Lemma emit_ok : K_ok (fun s => repsens s = rs) emit.
 Proof. intros w s Hs. unfold emit. destruct (Nat.leb (cap s) (S (nout s))); exact Hs. Qed.
 
 Theorem observe_den0 q : ok0 q -> forall n capn ins v,
@@ -553,7 +601,7 @@ Theorem observe_den0 q : ok0 q -> forall n capn ins v,
   observe bs n capn rs ins (emb q) v = (fst (den0 rs q [] v), ending_of (snd (den0 rs q [] v))).
 Proof.
   intros Hq n capn ins v Hn Hc. unfold observe.
-  rewrite (sem_den0 q Hq n [] v emit (init_state capn ins rs) Hn I emit_ok eq_refl).
+  rewrite (sem_den0 q Hq n [] v emit (init_state capn ins rs) (fun s => repsens s = rs) Hn I (fun _ H => H) emit_ok eq_refl).
   unfold run_res. destruct (run_emit (fst (den0 rs q [] v)) (snd (den0 rs q [] v)) (init_state capn ins rs)) as [s' [E1 E2]].
   { cbn [nout cap init_state]. lia. }
   rewrite E1. cbn [outs init_state] in E2. rewrite app_nil_r in E2.
